@@ -1,5 +1,6 @@
 """C16: real S3TapeCassette over the fake bucket with a fake clock."""
 import datetime
+import logging
 import random
 
 import fake_s3
@@ -10,12 +11,15 @@ _cache = {}
 _nbuckets = [0]
 
 
+_shift = [0]          # days added to BASE for the current case (`base_days`)
+
+
 def at(us):
-    return BASE + datetime.timedelta(microseconds=us)
+    return BASE + datetime.timedelta(days=_shift[0], microseconds=us)
 
 
 def populated(times, tags, prefix):
-    key = (tuple(times), tuple(tags), prefix)
+    key = (tuple(times), tuple(tags), prefix, _shift[0])
     if key in _cache:
         return _cache[key]
     s3c = fake_s3.install(random_ids=len(_cache) + 17)
@@ -42,9 +46,35 @@ def populated(times, tags, prefix):
     return cas, ids
 
 
+class _Formatting(logging.Handler):
+    """what any real handler does with a record: format it (the text goes nowhere)"""
+    def emit(self, record):
+        self.format(record)
+
+
 def run_c16(case):
     times = case['times']
+    _shift[0] = case.get('base_days', 0)
     cas, ids = populated(times, case.get('tags') or [0] * len(times), case.get('prefix', ''))
+    if not case.get('log'):
+        return lookup(case, cas, ids)
+    # the same lookup in a process whose logging is switched on (root logger at the given level, a handler that formats
+    # every record): driver_common disables logging globally, so it is re-enabled for the duration of this case
+    root = logging.getLogger()
+    handler = _Formatting()
+    before = (root.level, logging.root.manager.disable)
+    root.addHandler(handler)
+    root.setLevel(getattr(logging, case['log']))
+    logging.disable(logging.NOTSET)
+    try:
+        return lookup(case, cas, ids)
+    finally:
+        root.removeHandler(handler)
+        root.setLevel(before[0])
+        logging.disable(before[1])
+
+
+def lookup(case, cas, ids):
     fake_s3.CLOCK.set(at(case['now']))
     end = None if case['end'] is None else at(case['end'])
     flt = None if case.get('filter') is None else {'g': case['filter']}
